@@ -67,6 +67,11 @@ public:
         _info._width  = read_int();
         _info._height = read_int();
 
+        // the readers take the address of the first element of their row buffers
+        io_error_if( _info._width == 0 || _info._height == 0
+                   , "Invalid image dimensions in PNM header"
+                   );
+
         if( _info._type == pnm_image_type::mono_asc_t::value || _info._type == pnm_image_type::mono_bin_t::value )
         {
             _info._max_value = 1;
